@@ -208,6 +208,23 @@ func (c *scriptConn) Read(p []byte) (int, error) {
 	}
 }
 
+// ready: a Read would return at once (used by the polling stream double: ReadAvailable must never block
+// for long — the real long-polling / WebSocket server streams return "nothing yet" after their poll period).
+func (c *scriptConn) ready() bool {
+	c.mu.Lock()
+	defer c.mu.Unlock()
+	if c.closed {
+		return true
+	}
+	if c.ri == c.pauseAt && !c.released {
+		return false
+	}
+	if c.ri >= len(c.reads) {
+		return !c.holdAtEnd
+	}
+	return c.reads[c.ri].after <= c.recv.Len()
+}
+
 func (c *scriptConn) Write(p []byte) (int, error) {
 	c.mu.Lock()
 	defer c.mu.Unlock()
@@ -333,6 +350,12 @@ func (a *adpStream) ReadAvailable(max int) ([]byte, error) {
 	a.tick++
 	if a.tick%2 == 1 {
 		return nil, nil // idle poll
+	}
+	if !a.c.ready() {
+		// nothing to deliver yet: the poll period passes and the stream reports "no data" (it must not block:
+		// the adapter holds its buffer lock across this call, and Close needs that lock)
+		time.Sleep(time.Millisecond)
+		return nil, nil
 	}
 	b := make([]byte, max)
 	n, err := a.c.Read(b)
